@@ -794,11 +794,22 @@ def policy(repo, tier):
     obls.append(ground_obligation("C06/package/frame#observer-methods-scanned", n_obs >= 150, f"{n_obs} observer methods of result classes analysed", "package"))
     fns.append({"function": f"{DT}::<{n_obs} observer methods>", "lines": [1, 1], "file_sha256": dt.sha256, "segment_sha256": dt.sha256, "obligations": n_obs})
     # ---- frames: the caller's input buffer is only read / repositioned -- in every function it is handed to
-    ib = FR.input_buffer_functions(mods, pkg)
+    held = {}
+    try:
+        ib = FR.input_buffer_functions(mods, pkg, held)
+        bases = FR.class_bases(mods)
+    except Exception as e:  # noqa -- an unexpected shape must never be an engine error: the replayer decides (the floor below fails as unknown)
+        ib, held, bases = {}, {}, {}
+        o = ground_obligation("C06/package/frame#input-buffer-only-read", False, f"input-buffer scan failed on this shape ({type(e).__name__}: {e})"[:200],
+                              "package", definite=False)
+        o["replay_hint"] = {"kind": "frame", "file": DT, "function": ""}
+        obls.append(volatile(o))
+    for key in held:
+        ib.setdefault(key, set())
     for (rel, q), names in sorted(ib.items()):
         fnode = mods[rel].functions[q]
         try:
-            bad = FR.input_buffer_sites(fnode, names)
+            bad = FR.input_buffer_sites(fnode, names, mods[rel], q, pkg, held.get((rel, q), ()), mods, bases)
         except Exception as e:  # noqa
             bad = [(fnode.lineno, f"analysis failed ({type(e).__name__})", False)]
         o = ground_obligation(f"C06/{rel.split('/')[-1]}::{q}/frame#input-buffer-only-read", not bad,
@@ -806,8 +817,8 @@ def policy(repo, tier):
                               definite=any(d_ for _l, _t, d_ in bad))
         o["replay_hint"] = {"kind": "frame", "file": rel, "function": q}
         obls.append(volatile(o))
-    obls.append(ground_obligation("C06/package/frame#input-buffer-receivers-scanned", len(ib) >= 40,
-                                  f"{len(ib)} functions receive the caller's input buffer", "package"))
+    obls.append(ground_obligation("C06/package/frame#input-buffer-receivers-scanned", len(ib) >= 100 and len(held) >= 50,
+                                  f"{len(ib)} functions receive the caller's input buffer ({len(held)} of them methods of a class that holds it)", "package"))
     # ---- streams owned by a result are read from offset 0
     so, n_stream = FL.stream_obligations(mods, ib)
     obls.extend(so)
@@ -844,6 +855,17 @@ def policy(repo, tier):
                         # not contained at the call itself: follow the value through the package (interprocedural taint)
                         ok, why2, _v, definite = FL.taint_verdict(mods, index, rel, q, fnode, n)
                         why = f"{c}: {why2}"
+                    elif not ok and isinstance(n.func, ast.Name) and n.func.id in ("id", "hash"):
+                        # an identity / salted hash that leaves the recognised key-only shapes: when the value itself (through
+                        # value-preserving steps: arithmetic, formatting, containers, helper returns) reaches a result, that is a
+                        # definite flow -- hash() of str / bytes / tuples differs per process (PYTHONHASHSEED), id() per allocation.
+                        # A flow only through library calls, or none found, stays `unknown` (the replayer decides).
+                        ok2, why2, _v, dfn2 = FL.taint_verdict(mods, index, rel, q, fnode, n)
+                        if not ok2 and dfn2 and not (n.func.id == "hash" and _evidently_numeric(n.args[0] if n.args else None)):
+                            definite = True
+                            why = f"{why}; {n.func.id}() {why2}"
+                        elif not ok2:
+                            why = f"{why}; {why2}"
                 except Exception as e:  # noqa -- unexpected shape: the replayer decides
                     ok, why = False, f"analysis failed on this shape ({type(e).__name__}: {e})"[:200]
                 # identity keys / the encrypt-wrapper allowance are recognised by shape: not recognised = unknown, never a refutation
@@ -871,6 +893,15 @@ def policy(repo, tier):
         fns.append({"function": f"{sorted(d)[0][0]}::<{len(d)} functions with {fam} obligations: " + ", ".join(q for (_r, q) in sorted(d))[:400] + ">",
                     "lines": [1, 1], "file_sha256": digest, "segment_sha256": digest, "obligations": sum(d.values())})
     return {"obligations": obls, "functions": fns}
+
+
+def _evidently_numeric(e):
+    """hash() of an int / bool is the number itself (deterministic); recognised: numeric literals, len() / int() / ord() / bool() calls."""
+    if isinstance(e, ast.Constant):
+        return isinstance(e.value, (int, bool)) and not isinstance(e.value, (str, bytes))
+    if isinstance(e, ast.Call) and isinstance(e.func, ast.Name):
+        return e.func.id in ("len", "int", "ord", "bool")
+    return False
 
 
 def nondet_contained(m, fnode, call, name):
@@ -938,6 +969,8 @@ def nondet_contained(m, fnode, call, name):
                 return True, f"key argument of .{par.func.attr}()"
             if isinstance(par, ast.Tuple):
                 return key_only(par, depth + 1)
+            if isinstance(par, ast.Call) and isinstance(par.func, ast.Name) and par.func.id == "hash" and node in par.args:
+                return key_only(par, depth + 1)       # the hash of an identity / a tuple holding one: as good a key as the identity
             if isinstance(par, (ast.SetComp, ast.Set)):
                 return True, "member of a local set"
             if isinstance(par, ast.DictComp) and par.key is node:
